@@ -197,7 +197,7 @@ Date::Date(const String& str, const String& fmt)
 			second = parseSkipNumber(s);
 			break;
 		default:
-			if (c != '?' && *s != c)
+			if (*s == '\0' || (c != '?' && *s != c))
 			{
 				_t = 0;
 				return;
